@@ -130,6 +130,25 @@ def _leaf_tab(el, cell, X, nder):
         vals = np.einsum("ja,da->dj", J, ref) / detJ
         d1 = np.einsum("ja,dab,bl->djl", J, dref, K) / detJ if nder >= 1 else None
         return vals, d1, None
+    if mt in (basix.MapType.doubleCovariantPiola, basix.MapType.doubleContravariantPiola):
+        # reference values are tdim x tdim matrices (row-major): K^T V K  resp.  J V J^T / detJ^2
+        t = cell.tdim
+        V = ref.reshape(ndofs, t, t)
+        if mt == basix.MapType.doubleCovariantPiola:
+            vals = np.einsum("ai,dab,bj->dij", K, V, K)
+        else:
+            vals = np.einsum("ia,dab,jb->dij", J, V, J) / (detJ * detJ)
+        vals = vals.reshape(ndofs, -1)
+        if nder >= 1:
+            dV = dref.reshape(ndofs, t, t, cell.tdim)
+            if mt == basix.MapType.doubleCovariantPiola:
+                d1 = np.einsum("ai,dabc,bj,cl->dijl", K, dV, K, K)
+            else:
+                d1 = np.einsum("ia,dabc,jb,cl->dijl", J, dV, J, K) / (detJ * detJ)
+            d1 = d1.reshape(ndofs, -1, cell.gdim)
+        else:
+            d1 = None
+        return vals, d1, None
     raise Unsupported(f"map type {mt}")
 
 
@@ -176,6 +195,10 @@ def tabulate_physical(el, cell, X, nder):
             do += a
             co += b
         return vals, d1, d2
+    if cls == "_RealElement":
+        # one global constant per value component
+        n = int(np.prod(el.reference_value_shape, dtype=int)) if el.reference_value_shape else 1
+        return np.eye(n), np.zeros((n, n, cell.gdim)), np.zeros((n, n, cell.gdim, cell.gdim))
     if cls == "_QuadratureElement":
         # defined at its own points only: dof i is the value at point i
         pts = np.asarray(el._points)
@@ -319,6 +342,21 @@ def geometric_values(cellobj, X, facet, itype):
         nref = reference_normal(cn, facet)
         n = K.T @ nref
         vals["n"] = n / np.linalg.norm(n)
+    vals["refcellvolume"] = basix.cell.volume(getattr(basix.CellType, cn))
+    if facet is not None and itype != "vertex" and cellobj.tdim > 1:
+        o_, ax_ = facet_embedding(cn, facet)
+        vals["CFJ"] = ax_
+        vals["FJ"] = J @ ax_
+        vals["detFJ"] = math.sqrt(abs(np.linalg.det(vals["FJ"].T @ vals["FJ"])))
+        vals["reffacetvolume"] = basix.cell.volume(facet_type(cn, facet))
+        vals["nref"] = reference_normal(cn, facet)
+    if cellobj.gdim == cellobj.tdim + 1:
+        # manifold: unit normal of the cell (orientation of UFL: cross product of the tangents / rotated tangent)
+        if cellobj.tdim == 2:
+            nn_ = np.cross(J[:, 0], J[:, 1])
+        else:
+            nn_ = np.array([-J[1, 0], J[0, 0]])
+        vals["cellnormal"] = nn_ / np.linalg.norm(nn_)
     # quantities defined through the vertices (any cell, any geometry degree)
     ct0 = getattr(basix.CellType, cn)
     topo = basix.topology(ct0)
@@ -439,6 +477,14 @@ def _geo_value(t, g):
         return g["facetarea"]
     for cls, key in (("CellDiameter", "celldiameter"), ("MinCellEdgeLength", "mincelledge"), ("MaxCellEdgeLength", "maxcelledge"),
                      ("MinFacetEdgeLength", "minfacetedge"), ("MaxFacetEdgeLength", "maxfacetedge")):
+        if isinstance(t, getattr(ufl.classes, cls)):
+            if key not in g:
+                raise Unsupported(cls)
+            return g[key]
+    simple = {"JacobianInverse": "K", "ReferenceCellVolume": "refcellvolume", "ReferenceFacetVolume": "reffacetvolume",
+              "FacetJacobian": "FJ", "FacetJacobianDeterminant": "detFJ", "CellFacetJacobian": "CFJ", "ReferenceNormal": "nref",
+              "CellNormal": "cellnormal"}
+    for cls, key in simple.items():
         if isinstance(t, getattr(ufl.classes, cls)):
             if key not in g:
                 raise Unsupported(cls)
